@@ -207,7 +207,8 @@ func (w *world) disarm(g *wgate) {
 	g.open()
 }
 
-// armSGate holds the next response of one kind (recv / ack / other) the relay writes to peer src.
+// armSGate holds the next response of one kind (recv / ack / other, or, finer, opened / closed /
+// clear) the relay writes to peer src.
 func (w *world) armSGate(src int, kind string) *wgate {
 	g := &wgate{src: src, kind: kind, held: make(chan struct{}), release: make(chan struct{})}
 	w.mtx.Lock()
@@ -216,11 +217,11 @@ func (w *world) armSGate(src int, kind string) *wgate {
 	return g
 }
 
-func (w *world) takeSGate(src int, kind string) *wgate {
+func (w *world) takeSGate(src int, kind, fine string) *wgate {
 	w.mtx.Lock()
 	defer w.mtx.Unlock()
 	for i, g := range w.sgates {
-		if g.src == src && g.kind == kind {
+		if g.src == src && (g.kind == kind || g.kind == fine) {
 			w.sgates = append(w.sgates[:i:i], w.sgates[i+1:]...)
 			return g
 		}
@@ -268,6 +269,26 @@ func (w *world) waitRHook(from, call int, d time.Duration, ev string) bool {
 		w.mtx.Lock()
 		for i := from; i < len(w.log); i++ {
 			if strings.HasPrefix(w.log[i], "ev="+ev+" ") && w.calls[lineKV(w.log[i], "call")] == call {
+				w.mtx.Unlock()
+				return true
+			}
+		}
+		from = len(w.log)
+		w.mtx.Unlock()
+		if time.Now().After(deadline) {
+			return false
+		}
+		time.Sleep(50 * time.Microsecond)
+	}
+}
+
+// waitRLine waits for a relay hook line logged at or after `from` that satisfies pred.
+func (w *world) waitRLine(from int, d time.Duration, pred func(line string) bool) bool {
+	deadline := time.Now().Add(d)
+	for {
+		w.mtx.Lock()
+		for i := from; i < len(w.log); i++ {
+			if pred(w.log[i]) {
 				w.mtx.Unlock()
 				return true
 			}
@@ -367,7 +388,7 @@ func (s *serverEnd) Send(m *signaling.SessionResponse) error {
 	}
 	// a held response: the relay's handler is parked inside strm.Send (between two critical
 	// sections) until the gate opens; the response is transmitted then
-	if g := s.p.w.takeSGate(s.p.src, respKind(m)); g != nil {
+	if g := s.p.w.takeSGate(s.p.src, respKind(m), respFine(m)); g != nil {
 		close(g.held)
 		select {
 		case <-g.release:
@@ -542,6 +563,19 @@ func respKind(m *signaling.SessionResponse) string {
 		return "ack"
 	}
 	return "other"
+}
+
+// respFine names the kinds respKind lumps together as "other".
+func respFine(m *signaling.SessionResponse) string {
+	switch m.GetBody().(type) {
+	case *signaling.SessionResponse_Opened:
+		return "opened"
+	case *signaling.SessionResponse_Closed:
+		return "closed"
+	case *signaling.SessionResponse_ClearMsg:
+		return "clear"
+	}
+	return respKind(m)
 }
 
 func (w *world) severKind(src int) string {
@@ -984,7 +1018,9 @@ func (e *engine) scenario(kind string, nMsgs int) {
 		async := func(s *side, payload []byte) chan error {
 			total++
 			ch := make(chan error, 1)
-			go func() { ch <- sendNow(s, payload, 8*time.Second, true) }()
+			// (these sends are deliberately kept pending across two quiescence waits and the exit of
+			// the superseded handler: on a loaded machine that alone can take seconds)
+			go func() { ch <- sendNow(s, payload, 25*time.Second, true) }()
 			return ch
 		}
 		pauseApp := func(i int) {
@@ -1074,6 +1110,145 @@ func (e *engine) scenario(kind string, nMsgs int) {
 		}
 		paused[1].Store(false)
 		paused[2].Store(false)
+	} else if kind == "stalled-reopen" {
+		// C23 (wave 6), a slow downlink across a re-open: the relay's handler of the RECEIVER r is
+		// parked inside strm.Send (writing Closed / Opened / a message / an acknowledgement to r; the
+		// write is only delayed, it is transmitted on release) while the stream of its partner s
+		// fails, s re-attaches (the epoch of the pair changes, once or twice) and the relay accepts a
+		// message of s for the NEW epoch into r's slot - all before r's handler has announced that
+		// epoch to r. Then r's downlink resumes and nothing else happens: r's handler has to announce
+		// the epoch AND hand out the item that was queued before the announcement (there is no later
+		// wake-up), so every pending Send must complete and the partner's application must get it.
+		total = 0
+		parts := strings.SplitN(e.variant, "|", 2)
+		sk := parts[0]
+		ri, _ := strconv.Atoi(parts[1])
+		r, s := sides[ri], sides[3-ri]
+		pay := func(tag byte) []byte { return append([]byte{6, tag}, e.rng.Bytes(5)...) }
+		p0, p1, p2, p3 := pay(0), pay(1), pay(2), pay(3)
+		waitClosed := func(ch chan struct{}) bool {
+			select {
+			case <-ch:
+				return true
+			case <-time.After(gateWait):
+				return false
+			}
+		}
+		// the sends that cross the stall have no deadline of their own: non-completion is decided at
+		// quiescence below (load-proof), never by a timer
+		lctx, lc := context.WithCancel(ctx)
+		defer lc()
+		var rs []chan error
+		async := func(x *side, payload []byte) {
+			total++
+			ch := make(chan error, 1)
+			rs = append(rs, ch)
+			go func() { ch <- sendCtx(x, payload, lctx, true) }()
+		}
+		// s's stream fails (both ends notice) and s's client re-attaches: waits until s's tracker has
+		// processed the Opened of a later epoch. hold: s cannot re-open before `until` is closed.
+		failAndReopen := func(until chan struct{}) bool {
+			ep0 := w.lastOpened(s.ix)
+			from := w.cmark()
+			if until != nil {
+				w.mtx.Lock()
+				w.failOpen[s.ix] = 1 << 30
+				w.mtx.Unlock()
+			}
+			w.failPipe(s.ix)
+			ok := true
+			if until != nil {
+				ok = waitClosed(until)
+				w.mtx.Lock()
+				w.failOpen[s.ix] = 0
+				w.mtx.Unlock()
+			}
+			return w.waitCHook(from, s.ix, gateWait, func(l string) bool {
+				if !strings.HasPrefix(l, "ev=opened ") {
+					return false
+				}
+				ep, _ := strconv.ParseUint(lineKV(l, "a"), 10, 64)
+				return ep > ep0
+			}) && ok
+		}
+		// the relay accepted a message of s's CURRENT call for the current epoch into r's slot
+		stored := func(from int) bool {
+			call := w.curPipe(s.ix).id
+			return w.waitRLine(from, gateWait, func(l string) bool {
+				if !strings.HasPrefix(l, "ev=send ") || w.calls[lineKV(l, "call")] != call || lineKV(l, "a") != lineKV(l, "sessq") {
+					return false
+				}
+				for _, k := range []string{"sessA", "sessB"} {
+					f := strings.Split(lineKV(l, k), "/")
+					if len(f) == 5 && f[0] != lineKV(l, "att") && f[1] != "-" {
+						return true
+					}
+				}
+				return false
+			})
+		}
+		total += 2
+		if sendNow(s, p0, 8*time.Second, true) == nil && sendNow(r, p1, 8*time.Second, true) == nil {
+			epStart := w.lastOpened(r.ix)
+			held := w.armSGate(r.ix, sk)
+			reached := true
+			switch sk {
+			case "closed":
+				// r's handler is parked writing Closed; s stays away until it is
+				reached = failAndReopen(held.held)
+				rm := w.rmark()
+				async(s, p2)
+				reached = reached && stored(rm)
+			case "opened":
+				// r's handler is parked writing Opened(e); the pair goes through another re-open
+				reached = failAndReopen(nil) && waitClosed(held.held)
+				reached = reached && failAndReopen(nil)
+				rm := w.rmark()
+				async(s, p2)
+				reached = reached && stored(rm)
+			case "recv":
+				// r's handler is parked writing s's message to r; s's client re-sends it in the new epoch
+				async(s, p2)
+				reached = waitClosed(held.held)
+				rm := w.rmark()
+				reached = reached && failAndReopen(nil) && stored(rm)
+			case "ack":
+				// r's handler is parked writing s's acknowledgement of r's message to r
+				async(r, p2)
+				reached = waitClosed(held.held)
+				reached = reached && failAndReopen(nil)
+				rm := w.rmark()
+				async(s, p3)
+				reached = reached && stored(rm)
+			}
+			if !reached && harnessErr == "" {
+				harnessErr = "the stalled handler / the message accepted for the new epoch was not reached (stall on " + sk + ")"
+			}
+			if w.lastOpened(r.ix) != epStart && harnessErr == "" {
+				harnessErr = "the receiver was told about the new epoch while its handler was parked"
+			}
+			settling.Store(true)
+			w.quiesce(time.Millisecond)
+			w.disarm(held) // r's downlink resumes; from here on nothing else happens
+			for _, ch := range rs {
+				got := false
+				for try := 0; try < 4 && !got; try++ {
+					select {
+					case <-ch:
+						got = true
+					default:
+						// not yet: wait until no goroutine of the process can run and the logs are stable
+						w.quiesce(2 * time.Millisecond)
+					}
+				}
+				if !got {
+					lc() // quiescent with the Send still pending: reported by sendCtx as non-completion
+					<-ch
+				}
+			}
+			settling.Store(false)
+			actions = append(actions, fmt.Sprintf("warm-up both ways; the relay's handler of peer %d is parked writing '%s' to it (slow downlink); peer %d's stream fails and it re-attaches (epoch %d -> %d); the relay accepts a message of peer %d for the new epoch; peer %d's downlink resumes; nothing else happens", r.ix, sk, s.ix, epStart, w.lastOpened(s.ix), s.ix, r.ix))
+		}
 	} else if kind == "stale-ack" {
 		// C21 sentinel: B's acknowledgement of m1 is held on the wire while A's caller gives up on m1
 		// (A withdraws it) and A sends m2, which the relay forwards to B's client; B's APPLICATION
@@ -1455,7 +1630,7 @@ func (e *engine) scenario(kind string, nMsgs int) {
 		impl = "trace-accepted-by-real-system"
 	}
 	br := "e2e." + kind
-	if kind == "reopen-during-write" || kind == "late-exit" {
+	if kind == "reopen-during-write" || kind == "late-exit" || kind == "stalled-reopen" {
 		br += "." + strings.SplitN(e.variant, "|", 2)[0]
 	}
 	e.rep.Case(fmt.Sprintf("sige2e[%s] msgs=%d %s", kind, total, strings.Join(actions, "; ")), mshort, impl, br, true)
@@ -1572,6 +1747,22 @@ func (e *engine) run() {
 	for _, pt := range points {
 		lateExit(pt)
 	}
+	// wave 6: the receiver's relay handler stalled in a write across a re-open of the pair, with a
+	// message accepted for the new epoch before it resumes (every stall kind x either receiver)
+	e.rep.Require("e2e.stalled-reopen.closed", "e2e.stalled-reopen.opened", "e2e.stalled-reopen.recv", "e2e.stalled-reopen.ack")
+	stallRng := lib.NewRng(e.a.Seed ^ 0x7374616c)
+	stalls := []string{"closed", "opened", "recv", "ack"}
+	stalledReopen := func(sk string, r int) {
+		saved := e.rng
+		e.rng = stallRng
+		e.variant = sk + "|" + strconv.Itoa(r)
+		e.scenario("stalled-reopen", 1)
+		e.rng = saved
+	}
+	for _, sk := range stalls {
+		stalledReopen(sk, 1)
+		stalledReopen(sk, 2)
+	}
 	variants := []string{"send|reattach", "ack|stream-failure", "clear|reattach", "send|stream-failure", "clear|stream-failure"}
 	for _, v := range variants[:3] {
 		e.variant = v
@@ -1589,6 +1780,7 @@ func (e *engine) run() {
 				e.scenario("recv-cancelled", 3+e.rng.Intn(8))
 			}
 			lateExit(points[lateRng.Intn(len(points))])
+			stalledReopen(stalls[stallRng.Intn(len(stalls))], 1+stallRng.Intn(2))
 		}
 	}
 }
